@@ -5,7 +5,7 @@
 //! the source on `-E`, write a stamped object on `-c`, and log every invocation.
 //!
 //! case   = ( op ... )         op = ( swap d n b m ) | ( rewrite d n b m ) | ( retarget d n d2 n2 ) | ( remove d n )
-//!                                  | ( touch d n m ) | ( compile d n src )
+//!                                  | ( touch d n m ) | ( retargetdir l k ) | ( compile d n src )
 //!                                  | ( compile d n src ( envop ... ) )
 //!          A compile op with a non-empty envop list is a request DURING WHOSE DETECTION PROBE the
 //!          envops are applied: the harness arms the compilers (file `arm`), runs the request on a
@@ -53,7 +53,7 @@ fn logical(t: filetime::FileTime) -> u64 {
     (s as u64) * 4 + (t.nanoseconds() as u64) / 250_000_000
 }
 
-fn script(id: u64, root: &Path) -> String {
+fn script(id: u64, root: &Path, stamped: bool) -> String {
     let log = root.join("log");
     if id >= 100 {
         // not a compiler: fails whatever it is asked
@@ -77,18 +77,26 @@ case "$src" in *testfile.c) [ $mode = E ] && mode=D;; esac
 echo "{id} $mode" >> {log}
 if [ $mode = D ] && [ -e {root}/arm ]; then rm -f {root}/arm; echo r > {root}/ready; read x < {root}/go; fi
 case $mode in
-  D) echo "compiler_id=gcc"; echo 'compiler_version="12.0"'; exit 0;;
+  D) echo "compiler_id=gcc"; echo 'compiler_version={version}'; exit 0;;
   E) cat "$src"; exit 0;;
   C) {{ echo OBJ; cat "$src"; echo "WRAPPER_ID={id}"; }} > "$out"; exit 0;;
 esac
 "#,
         id = id,
         log = log.display(),
-        root = root.display()
+        root = root.display(),
+        // what a compiler says about itself does not tell two builds apart: within one history all compilers
+        // report the same version — a revision-stamped one (as official LLVM builds do) or a plain one
+        version = if stamped {
+            "\"12.0 (https://git.example.org/toolchain/gcc 6009708b4367171ccdbf4b5905cb6a803753fe18)\""
+        } else {
+            "\"12.0\""
+        }
     )
 }
 
 struct World {
+    stamped: bool,
     root: PathBuf,
     log: PathBuf,
     cwd: PathBuf,
@@ -119,7 +127,7 @@ impl World {
                 let p = self.path(op.arg(1).u64(), op.arg(2).u64());
                 // like `cp new tmp; touch -d; mv tmp path`: the path becomes a fresh regular file
                 let tmp = p.with_extension("tmp");
-                std::fs::write(&tmp, script(op.arg(3).u64(), &self.root)).unwrap();
+                std::fs::write(&tmp, script(op.arg(3).u64(), &self.root, self.stamped)).unwrap();
                 std::fs::set_permissions(&tmp, std::fs::Permissions::from_mode(0o755)).unwrap();
                 filetime::set_file_mtime(&tmp, ft(op.arg(4).u64())).unwrap();
                 std::fs::rename(&tmp, &p).unwrap();
@@ -133,7 +141,7 @@ impl World {
                 if !is_reg {
                     let _ = std::fs::remove_file(&p);
                 }
-                std::fs::write(&p, script(op.arg(3).u64(), &self.root)).unwrap();
+                std::fs::write(&p, script(op.arg(3).u64(), &self.root, self.stamped)).unwrap();
                 std::fs::set_permissions(&p, std::fs::Permissions::from_mode(0o755)).unwrap();
                 filetime::set_file_mtime(&p, ft(op.arg(4).u64())).unwrap();
                 true
@@ -142,6 +150,22 @@ impl World {
                 let l = self.path(op.arg(1).u64(), op.arg(2).u64());
                 let tgt = self.path(op.arg(3).u64(), op.arg(4).u64());
                 let _ = std::fs::remove_file(&l);
+                std::os::unix::fs::symlink(&tgt, &l).unwrap();
+                true
+            }
+            "retargetdir" => {
+                // `ln -sfn d<k> d<l>`: a DIRECTORY component of compiler paths becomes a link to another directory
+                let l = self.root.join(format!("d{}", op.arg(1).u64() % 8));
+                let tgt = self.root.join(format!("d{}", op.arg(2).u64() % 8));
+                match std::fs::symlink_metadata(&l) {
+                    Ok(m) if m.file_type().is_symlink() => {
+                        let _ = std::fs::remove_file(&l);
+                    }
+                    Ok(_) => {
+                        let _ = std::fs::remove_dir_all(&l);
+                    }
+                    Err(_) => {}
+                }
                 std::os::unix::fs::symlink(&tgt, &l).unwrap();
                 true
             }
@@ -210,7 +234,7 @@ fn run_case(rt: &tokio::runtime::Runtime, case: &Sx, seq: u64) -> Sx {
     let root = PathBuf::from(format!("/dev/shm/c12-{}-{}", std::process::id(), seq));
     let _ = std::fs::remove_dir_all(&root);
     std::fs::create_dir_all(&root).unwrap();
-    let w = World { log: root.join("log"), cwd: root.join("w"), root: root.clone() };
+    let w = World { log: root.join("log"), cwd: root.join("w"), root: root.clone(), stamped: case.list().len() % 2 == 1 };
     for d in 0..8 {
         std::fs::create_dir_all(root.join(format!("d{}", d))).unwrap();
     }
